@@ -17,6 +17,7 @@ import LinVerif.Lemmas.C01CreateFam
 import LinVerif.Model.C01Switch
 import LinVerif.Lemmas.C01Close
 import LinVerif.Model.C01Alias
+import LinVerif.Lemmas.C01Writer
 import LinVerif.Generated.C04
 import LinVerif.Generated.C01
 
@@ -911,6 +912,146 @@ theorem split_flush_commit_half_applied :
     (((execAll ⟨2, [300000]⟩ St.init splitHistory).bind (fun s => (openStore ⟨2, [300000]⟩ s.disk).1)).map
       (fun m => m.vs.fams.map (fun f => (f.ver.files.map (fun e => e.1.2), f.ver.rollup)))) = some [([2], [(2, [300000])])] := by
   decide
+
+end Counterfactual
+
+/-! ## 8c. Round 12 — the buffered writer under the manifest (pkg/bufioutil bufioEntryWriter over bufio.Writer)
+
+The disk model holds a manifest as the list of its records and treats "append a record" as one file-system
+operation. Underneath, `persistEditLogs` hands the record to a bufio.Writer (user-space buffer of
+`defaultWriteBufferSize` bytes) and then calls `Sync` — the ONLY thing on that path that moves the buffer
+to the file. A process kill keeps the file and loses the buffer. Model: `Model/C01Writer.lean` (`BW`). -/
+section Round12
+open LinVerif.Kv.BW
+
+/-- which records persistEditLogs syncs: read off the regenerated loop body (`persistLoopSteps`) -/
+def persistSyncs : Bytes → Bool := fun _ => syncsEveryRecord Generated.C01.persistLoopSteps
+
+/-- the loop body of persistEditLogs: marshal, Write, Sync — each on every iteration (none of them inside a
+nested if / switch / loop body), no other call on the writer, and no jump (continue / break / goto / success
+return) that would leave the iteration between them; the only exits are the error returns -/
+theorem tie_persist_syncs_every_record :
+    only ["editLog.marshal", "writer.Write", "writer.Sync", "writer.Flush", "writer.Close", "writer.Reset",
+          "guarded:editLog.marshal", "guarded:writer.Write", "guarded:writer.Sync", "guarded:writer.Flush",
+          "guarded:writer.Close", "guarded:writer.Reset", "continue", "break", "goto", "return-nil",
+          "guarded:continue", "guarded:break", "guarded:goto", "guarded:return-nil"] Generated.C01.persistLoopSteps
+      = persistEditLogsSteps ∧
+    syncsEveryRecord Generated.C01.persistLoopSteps = true := by decide
+
+/-- Flush = bufio Flush; Close = bufio Flush then file close; a new writer truncates (os.Create) and gets a
+bufio.Writer; Destroy closes (hence flushes) the manifest writer -/
+theorem tie_entry_writer_flush_close :
+    Generated.C01.entryWriterFlushCalls = ["w.Flush"] ∧ Generated.C01.entryWriterCloseCalls = ["w.Flush", "f.Close"] ∧
+    Generated.C01.newEntryWriterCalls = ["os.Create", "bufio.NewWriterSize"] ∧
+    only ["manifest.Close"] Generated.C01.versionSetDestroyCalls = ["manifest.Close"] := by decide
+
+theorem persistSyncs_all : persistSyncs = fun _ => true := by
+  funext _
+  show syncsEveryRecord Generated.C01.persistLoopSteps = true
+  decide
+
+/-- the writer loses and invents nothing: for EVERY buffer size and EVERY sequence of Write / Flush / Sync /
+Close, file ++ buffer is exactly the framed records handed over, in order, and the buffer stays within B -/
+theorem writer_conserves_stream (B : Nat) (ops : List WOp) :
+    (runW B WState.init ops).file ++ (runW B WState.init ops).buf = written ops ∧
+    (runW B WState.init ops).buf.length ≤ B := by
+  refine ⟨?_, runW_bound B ops WState.init (by simp [WState.init])⟩
+  have := runW_stream B ops WState.init
+  simpa [WState.stream, WState.init] using this
+
+/-- after a Flush / Sync / Close everything written before is in the file and nothing is buffered -/
+theorem sync_makes_everything_written_durable (B : Nat) (ops : List WOp) (o : WOp)
+    (ho : o = .sync ∨ o = .flush ∨ o = .close) :
+    runW B WState.init (ops ++ [o]) = ⟨written ops, []⟩ := by
+  rw [runW_append]
+  have h := runW_stream B ops WState.init
+  have : runW B (runW B WState.init ops) [o] = flush (runW B WState.init ops) := by
+    rcases ho with rfl | rfl | rfl <;> simp [runW, stepW]
+  rw [this, flush_eq, h]
+  simp [WState.stream, WState.init]
+
+/-- what the disk model assumes of `appendRec`: with persistEditLogs as the source has it (the sync predicate
+is the regenerated one), after persisting ANY list of records through a writer of ANY buffer size the buffer
+is empty, the FILE — what a process kill leaves — holds exactly the framed records, and the entry reader
+(any read-buffer size) returns exactly those records with a clean end -/
+theorem persisted_records_survive_kill (B B' : Nat) (hB' : 1 ≤ B') (recs : List Bytes) :
+    (persistW B persistSyncs WState.init recs).buf = [] ∧
+    (persistW B persistSyncs WState.init recs).file = writeEntries recs ∧
+    readEntries B' (persistW B persistSyncs WState.init recs).file = (recs, true) := by
+  rw [persistSyncs_all, persistW_all]
+  cases recs with
+  | nil => exact ⟨rfl, rfl, entries_roundtrip B' hB' []⟩
+  | cons r t =>
+    have hf : (WState.init.stream ++ writeEntries (r :: t)) = writeEntries (r :: t) := by simp [WState.stream, WState.init]
+    refine ⟨rfl, hf, ?_⟩
+    show readEntries B' (WState.init.stream ++ writeEntries (r :: t)) = _
+    rw [hf]; exact entries_roundtrip B' hB' _
+
+/-- a kill INSIDE persistEditLogs (after any write(2) call of it, any buffer size, records of any size — also
+larger than the buffer): the file holds every earlier record completely, followed by a prefix of ONE record
+(`Observations.torn_tail_reading` says how the reader treats such a prefix) -/
+theorem kill_during_persist_keeps_synced_records (B : Nat) (recs : List Bytes) (f : Bytes)
+    (hf : f ∈ persistImages B persistSyncs WState.init recs) :
+    ∃ i, i < recs.length ∧ writeEntries (recs.take i) <+: f ∧ f <+: writeEntries (recs.take (i + 1)) := by
+  rw [persistSyncs_all] at hf
+  obtain ⟨i, hi, h1, h2⟩ := persistImages_all B recs WState.init rfl f hf
+  exact ⟨i, hi, by simpa [WState.init] using h1, by simpa [WState.init] using h2⟩
+
+/-- non-vacuity: buffer of 4 bytes, a 6-byte record (header buffered; the content fills the buffer, which is
+flushed: a file with HALF a record; the rest is buffered until the Sync), a 1-byte record (in the buffer until its Sync) -/
+example : persistImages 4 persistSyncs WState.init [[1, 2, 3, 4, 5, 6], [7]] =
+    [[6, 1, 2, 3], [6, 1, 2, 3, 4, 5, 6], [6, 1, 2, 3, 4, 5, 6, 1, 7]] := by
+  rw [persistSyncs_all]; decide
+example : runW 4 WState.init [.write [1, 2], .write [3, 4, 5], .flush, .write [9]] = ⟨[2, 1, 2, 3, 3, 4, 5], [1, 9]⟩ := by decide
+
+/-- table files (bufioStreamWriter: the same bufio.Writer, no headers): after Close the file is exactly the
+chunks written, for every buffer size and every chunking — "the table is flushed+closed before its NewFile
+record is appended" makes the table COMPLETE -/
+theorem closed_table_is_complete (B : Nat) (chunks : List Bytes) :
+    flush (streamWrites B WState.init chunks) = ⟨chunks.flatten, []⟩ := by
+  rw [flush_eq, streamWrites_stream]
+  simp [WState.stream, WState.init]
+
+/-- … and before the Close the file is a prefix of the table, missing at most one buffer: a half-written table -/
+theorem unclosed_table_is_prefix (B : Nat) (chunks : List Bytes) :
+    (streamWrites B WState.init chunks).file <+: chunks.flatten ∧
+    chunks.flatten.length ≤ (streamWrites B WState.init chunks).file.length + B := by
+  have h := streamWrites_stream B chunks WState.init
+  have hb := streamWrites_bound B chunks WState.init (by simp [WState.init])
+  have e : WState.init.stream = [] := rfl
+  rw [e, List.nil_append] at h
+  unfold WState.stream at h
+  refine ⟨⟨_, h⟩, ?_⟩
+  rw [← h, List.length_append]
+  omega
+
+theorem tie_stream_writer :
+    only ["binary.PutUvarint", "w.Write", "f.Write"] Generated.C01.streamWriterWriteCalls = ["w.Write"] := by decide
+
+example : streamWrites 4 WState.init [[1, 2, 3], [4, 5, 6], [7]] = ⟨[1, 2, 3, 4], [5, 6, 7]⟩ := by decide
+
+end Round12
+
+namespace Counterfactual
+open LinVerif.Kv.BW
+
+/-- a record written without the Sync that fits the buffer does not reach the file at all (any buffer size,
+any file content before): a kill then loses it although persistEditLogs returned success -/
+theorem unsynced_record_stays_in_buffer (B : Nat) (s : WState) (r : Bytes) (hs : s.buf = [])
+    (h : (writeEntry r).length ≤ B) :
+    (persistW B (fun _ => false) s [r]).file = s.file ∧ (persistW B (fun _ => false) s [r]).buf = writeEntry r := by
+  obtain ⟨f, b⟩ := s
+  simp only at hs; subst hs
+  have h1 : (putUvarint r.length).length ≤ B := by simp [writeEntry] at h; omega
+  have h2 : r.length ≤ B - (putUvarint r.length).length := by simp [writeEntry] at h; omega
+  simp [persistW, entryWrite, entryWriteT, bwriteT, h1, h2, writeEntry]
+
+/-- the seeded shape (c01-25): Sync only for records "with a file log" (here: longer than 3 bytes). The last
+record of a snapshot (the store record, no file log) stays in the buffer: the file read back lacks it -/
+theorem sync_skipped_for_some_records_loses_last :
+    let s := persistW 262144 (fun r => decide (3 < r.length)) WState.init [[1, 2, 3, 4, 5], [9]]
+    s.file = writeEntry [1, 2, 3, 4, 5] ∧ s.buf = writeEntry [9] ∧
+    readEntries 262144 s.file = ([[1, 2, 3, 4, 5]], true) := by decide
 
 end Counterfactual
 
